@@ -35,6 +35,10 @@ func quote(s string) string {
 			out += `\\`
 		case c == '\n':
 			out += `\n`
+		case c == '\r':
+			out += `\r`
+		case c == '\t':
+			out += `\t`
 		case (c == '$' || c == '%') && i+1 < len(s) && s[i+1] == '{':
 			out += string(c) + string(c)
 		default:
@@ -51,7 +55,7 @@ func symLabel() label {
 		if vf.Param("alpha", 0) == 1 {
 			// the characters that matter to label escape processing
 			c := s[i]
-			vf.Assume(c == 'a' || c == '$' || c == '%' || c == '{' || c == '"' || c == '\\' || c == ' ' || c == 'n')
+			vf.Assume(c == 'a' || c == '$' || c == '%' || c == '{' || c == '"' || c == '\\' || c == ' ' || c == 'n' || c == '\n' || c == '\r' || c == '\t')
 		} else {
 			vf.Assume(s[i] >= 0x20 && s[i] < 0x7f)
 		}
